@@ -313,6 +313,22 @@ Proof.
   - split; [constructor; assumption|]. split; [exact PU|]. simpl. intro E. rewrite E in D. discriminate.
 Qed.
 
+(* ---- one value in two roles (the harness also passes ONE object for both parameters) *)
+Lemma c18_relative_self : forall p, c18_relativePath p p = C18_Ok [].
+Proof.
+  intro p. pose proof (c18_denote_abs p) as A. destruct (c18_denote p) as [[ab u] cs] eqn:Hp. simpl in A. subst ab.
+  rewrite (c18_relativePath_compute p p u cs u cs (repeat c18_dotdot u ++ cs) [] [] eq_refl Hp Hp);
+    [reflexivity | rewrite app_nil_r; reflexivity | rewrite app_nil_r; reflexivity | exact I].
+Qed.
+
+Lemma c18_self_prefix_suffix : forall s k,
+  c18_hasPrefix s (firstn k s) = true /\ c18_hasSuffix s (skipn k s) = true.
+Proof.
+  intros s k. split.
+  - apply c18_hasPrefix_iff. exists (skipn k s). symmetry. apply firstn_skipn.
+  - apply c18_hasSuffix_iff. exists (firstn k s). symmetry. apply firstn_skipn.
+Qed.
+
 (* ---- the example tables of path.hh, transcribed (used by the Examples of Properties_C18.v) *)
 From Coq Require Import String.
 Definition c18_doc_process_table : list (String.string * String.string) :=
